@@ -70,16 +70,17 @@ Theorem C15_actor_layout_is_last_update :
     shape (a_lay a) = last_set ops [] /\ a_total a = length (lnodes (a_lay a)).
 Proof. exact actor_layout_is_last_update. Qed.
 
-(** Partial for cached answers: the count clauses are proved for fresh selections of the
-    actor; a cached answer is an earlier fresh answer on the same membership (the cache is
-    cleared by every update), for which only the clauses of
-    [C15_actor_draws_from_last_update] are proved. *)
-Theorem C15_actor_fresh_selection_count_partial :
+(** Every answer of the actor, fresh or served from its cache: enough nodes, exactly [n] for
+    One/Two/Three, an error only when too few other nodes exist - relative to the membership of
+    the last update.  (A cache entry is an earlier fresh answer on the same membership: every
+    update clears the cache, selections move cursors but never the shape, and the count
+    clauses speak about the shape only.)  [op_wf_count]: the RNG hands One/Two/Three a choice
+    of the requested length. *)
+Theorem C15_actor_selection_count :
   forall local local_dc ops lv choice,
-    Forall op_wf ops -> NoDup choice ->
+    Forall op_wf_count ops -> NoDup choice ->
     (forall n, level_n lv = Some n -> length choice = n) ->
     let a := fst (actor_run local local_dc ops actor_init) in
-    cache_get lv (a_cache a) = None ->
     local_listed local local_dc (a_lay a) ->
     match snd (actor_step local local_dc a (GetNodes lv choice)) with
     | Some (Ok sel) =>
@@ -89,7 +90,7 @@ Theorem C15_actor_fresh_selection_count_partial :
       length (others local (a_lay a)) < required local local_dc (a_lay a) lv
     | None => False
     end.
-Proof. exact actor_fresh_selection_count. Qed.
+Proof. exact actor_selection_count. Qed.
 
 (** The code as it stood before the repairs violates the property (D7, D6; both fixed). *)
 Theorem C15_legacy_select_refuted :
